@@ -111,8 +111,31 @@ Section Tangent.
     let f := dseg_sq_poly poly in
     let g := dseg_abs2_poly poly in
     res_map csqrt (crational_limit (S (length g)) f g t).
-  Definition bezier_unit_tangent (poly : list (Cplx K)) (dseg : Cplx K) (t : K) : res (Cplx K) :=
-    if eqb N (cabs dseg) 0 then unit_tangent_fallback poly t   (* ZeroDivisionError *)
+  (* the REPAIRED fallback (fix "unit_tangent at a zero of the derivative follows
+     the direction of travel"): for n = 2, 3, ... < len(bpoints) the first
+     ddseg = seg.derivative(t, n) != 0 gives ddseg/abs(ddseg), after multiplying by
+     (-1)**(n-1) when t == 1 (t = 1 is approached from below); for-else: ValueError.
+     [higher] is the list [seg.derivative(t, 2); seg.derivative(t, 3); ...] *)
+  Fixpoint first_dir (n : nat) (higher : list (Cplx K)) (at_one : bool) : res (Cplx K) :=
+    match higher with
+    | [] => ErrValue
+    | d :: r =>
+        if ceqb N d (c0 N) then first_dir (S n) r at_one
+        else Val (unit_of (if at_one && Nat.even n then copp N d else d))
+    end.
+  Definition unit_tangent_fallback_repaired (higher : list (Cplx K)) (t : K) : res (Cplx K) :=
+    first_dir 2 higher (eqb N t (one N)).
+
+  (* [repaired] selects which fallback the tree under test contains (the harness
+     detects it by the witness CubicBezier(0,0,-1+1j,-2).unit_tangent(0)).
+     The branch condition abs(dseg) == 0 is what `except ZeroDivisionError` amounts to
+     for Python scalars, and literally the test after the fix "explicit zero test"
+     (for numpy scalars the unfixed code never reaches the fallback: it returns nan). *)
+  Definition bezier_unit_tangent (repaired : bool) (poly : list (Cplx K)) (dseg : Cplx K)
+             (higher : list (Cplx K)) (t : K) : res (Cplx K) :=
+    if eqb N (cabs dseg) 0 then
+      (if repaired then unit_tangent_fallback_repaired higher t
+       else unit_tangent_fallback poly t)   (* ZeroDivisionError *)
     else Val (unit_of dseg).
 
   (* ---------------- curvature ---------------- *)
@@ -154,14 +177,16 @@ Section Tangent.
   Definition quad_d (s c e : Cplx K) (t : K) (n : Z) : Cplx K := oget (quad_deriv N s c e t n).
   Definition cubic_d (s c1 c2 e : Cplx K) (t : K) (n : Z) : Cplx K := oget (cubic_deriv N s c1 c2 e t n).
 
-  Definition quad_unit_tangent (s c e : Cplx K) (t : K) : res (Cplx K) :=
-    bezier_unit_tangent (quad_poly N s c e) (quad_d s c e t 1) t.
-  Definition cubic_unit_tangent (s c1 c2 e : Cplx K) (t : K) : res (Cplx K) :=
-    bezier_unit_tangent (cubic_poly N s c1 c2 e) (cubic_d s c1 c2 e t 1) t.
-  Definition quad_normal (s c e : Cplx K) (t : K) : res (Cplx K) :=
-    res_map mul_neg_i (quad_unit_tangent s c e t).
-  Definition cubic_normal (s c1 c2 e : Cplx K) (t : K) : res (Cplx K) :=
-    res_map mul_neg_i (cubic_unit_tangent s c1 c2 e t).
+  (* range(2, len(seg.bpoints())): n = 2 for a quadratic, n = 2, 3 for a cubic *)
+  Definition quad_unit_tangent (rp : bool) (s c e : Cplx K) (t : K) : res (Cplx K) :=
+    bezier_unit_tangent rp (quad_poly N s c e) (quad_d s c e t 1) [quad_d s c e t 2] t.
+  Definition cubic_unit_tangent (rp : bool) (s c1 c2 e : Cplx K) (t : K) : res (Cplx K) :=
+    bezier_unit_tangent rp (cubic_poly N s c1 c2 e) (cubic_d s c1 c2 e t 1)
+                        [cubic_d s c1 c2 e t 2; cubic_d s c1 c2 e t 3] t.
+  Definition quad_normal (rp : bool) (s c e : Cplx K) (t : K) : res (Cplx K) :=
+    res_map mul_neg_i (quad_unit_tangent rp s c e t).
+  Definition cubic_normal (rp : bool) (s c1 c2 e : Cplx K) (t : K) : res (Cplx K) :=
+    res_map mul_neg_i (cubic_unit_tangent rp s c1 c2 e t).
   Definition quad_curvature (s c e : Cplx K) (t : K) : res K :=
     segment_curvature (quad_poly N s c e) (quad_d s c e t 1) (quad_d s c e t 2) t.
   Definition cubic_curvature (s c1 c2 e : Cplx K) (t : K) : res K :=
